@@ -19,7 +19,7 @@ def cmd_text(c):
     if k == "s":
         return a + "s/" + gen.delim_escape(rx.to_pattern(rxgen.from_json(c["pat"])), "/") + "/" + typed_repl(c["repl"]) + "/" + ("g" if c.get("g") else "")
     if k in ("g", "v"):
-        return a + k + "/" + gen.delim_escape(rx.to_pattern(rxgen.from_json(c["pat"])), "/") + "/" + "|".join(cmd_text(x) for x in c["cmds"])
+        return a + c.get("sp", k) + "/" + gen.delim_escape(rx.to_pattern(rxgen.from_json(c["pat"])), "/") + "/" + "|".join(cmd_text(x) for x in c["cmds"])
     if k == "r":
         return a + "r " + c["path"]
     if k == "!":
